@@ -411,7 +411,7 @@ Fixpoint is_none (l : layer) : bool :=
   | Pair a b => is_none a || is_none b
   | LSome l => is_none l
   | LNone => true
-  | LVec ls => existsb is_none ls
+  | LVec ls => (match ls with [] => true | _ => false end) || existsb is_none ls
   | LBox l => is_none l
   | LReload l => is_none l
   | Identity => false
@@ -426,10 +426,11 @@ Definition is_registry (c : coll) : bool := match c with Registry => true | _ =>
 (** the three booleans of [Layered] *)
 Record flags := { fl_inner_is_registry : bool; fl_has_psf : bool; fl_inner_has_psf : bool }.
 
-(** [Layered::new] as called by [and_then]: [inner_is_registry] is computed from the COLLECTOR type parameter,
-    so [r] says whether the pair sits on a bare [Registry] *)
-Definition pair_flags (r : bool) (a b : layer) : flags :=
-  {| fl_inner_is_registry := r; fl_has_psf := psf a; fl_inner_has_psf := psf b || r |}.
+(** [Layered::new] as called by [and_then]: [inner_is_registry] is decided from the type of the INNER VALUE
+    ([TypeId::of::<B>() == TypeId::of::<Registry>()]), and the inner value of an [and_then] pair is a subscriber,
+    never the registry *)
+Definition pair_flags (a b : layer) : flags :=
+  {| fl_inner_is_registry := false; fl_has_psf := psf a; fl_inner_has_psf := psf b |}.
 (** [Layered::new] as called by [with_collector] *)
 Definition with_flags (l : layer) (c : coll) : flags :=
   {| fl_inner_is_registry := is_registry c; fl_has_psf := psf l; fl_inner_has_psf := c_psf c || is_registry c |}.
@@ -450,17 +451,17 @@ Definition vec_hint_step (acc : hint) (h : hint) : hint :=
   match acc, h with Some mx, Some x => Some (lf_max x mx) | _, _ => None end.
 
 (** [Subscribe::max_level_hint] *)
-Fixpoint l_hint (r : bool) (l : layer) : hint :=
+Fixpoint l_hint (l : layer) : hint :=
   match l with
   | Rec _ => None
   | Glob f => f_hint f
   | Filtered _ f => f_hint f
-  | Pair a b => pick_level_hint (pair_flags r a b) (is_none a) (is_none b) (l_hint r a) (l_hint r b)
-  | LSome l => l_hint r l
+  | Pair a b => pick_level_hint (pair_flags a b) (is_none a) (is_none b) (l_hint a) (l_hint b)
+  | LSome l => l_hint l
   | LNone => Some OFF
-  | LVec ls => fold_left (fun acc e => vec_hint_step acc (l_hint r e)) ls (Some OFF)
-  | LBox l => l_hint r l
-  | LReload l => l_hint r l
+  | LVec ls => fold_left (fun acc e => vec_hint_step acc (l_hint e)) ls (Some OFF)
+  | LBox l => l_hint l
+  | LReload l => l_hint l
   | Identity => None
   end.
 
@@ -468,8 +469,7 @@ Fixpoint l_hint (r : bool) (l : layer) : hint :=
 Fixpoint c_hint (c : coll) : hint :=
   match c with
   | Registry => None
-  | With l c' =>
-    pick_level_hint (with_flags l c') (is_none l) (c_is_none c') (l_hint (is_registry c') l) (c_hint c')
+  | With l c' => pick_level_hint (with_flags l c') (is_none l) (c_is_none c') (l_hint l) (c_hint c')
   end.
 
 (** *** The interest pass.  [pend] is the thread-local [FilterState::interest]. *)
@@ -494,32 +494,37 @@ Definition pick_interest (fl : flags) (outer : interest) (inner : pend -> intere
     else if is_never i && fl_inner_has_psf fl then (sometimes, p')
     else (i, p').
 
-(** [Vec::register_callsite]: "return highest level of interest" *)
-Definition vec_int_step (acc i : interest) : interest :=
-  if (is_sometimes acc && is_always i) || (is_never acc && negb (is_never i)) then i else acc.
+(** [Vec::register_callsite]: every element is asked; the two accumulators [(any_never, all_always)] *)
+Definition vec_flags := (bool * bool)%type.
+Definition vec_flags_init : vec_flags := (false, true).
+Definition vec_flags_step (st : vec_flags) (i : interest) : vec_flags := (fst st || is_never i, snd st && is_always i).
+Definition vec_flags_result (st : vec_flags) : interest :=
+  if fst st then never else if snd st then always else sometimes.
 
 (** [Subscribe::register_callsite] *)
-Fixpoint l_reg (r : bool) (l : layer) (m : meta) (p : pend) : interest * pend :=
+Fixpoint l_reg (l : layer) (m : meta) (p : pend) : interest * pend :=
   match l with
   | Rec _ => (always, p)
   | Glob f => (f_int f m, p)
   | Filtered l' f =>
     let i := f_int f m in
-    let p1 := if is_never i then p else snd (l_reg r l' m p) in
+    let p1 := if is_never i then p else snd (l_reg l' m p) in
     (always, add_interest p1 i)
   | Pair a b =>
-    let '(o, p1) := l_reg r a m p in
-    pick_interest (pair_flags r a b) o (l_reg r b m) p1
-  | LSome l => l_reg r l m p
+    let '(o, p1) := l_reg a m p in
+    pick_interest (pair_flags a b) o (l_reg b m) p1
+  | LSome l => l_reg l m p
   | LNone => (always, p)
   | LVec ls =>
-    fold_left (fun st e => let '(i, p') := l_reg r e m (snd st) in (vec_int_step (fst st) i, p')) ls (never, p)
-  | LBox l => l_reg r l m p
-  | LReload l => l_reg r l m p
+    let st := fold_left (fun st e => let '(i, p') := l_reg e m (snd st) in (vec_flags_step (fst st) i, p'))
+                        ls (vec_flags_init, p) in
+    (vec_flags_result (fst st), snd st)
+  | LBox l => l_reg l m p
+  | LReload l => l_reg l m p
   | Identity => (always, p)
   end.
 
-Definition l_int (r : bool) (l : layer) (m : meta) : interest := fst (l_reg r l m None).
+Definition l_int (l : layer) (m : meta) : interest := fst (l_reg l m None).
 
 (** number of [Filtered] in a tree ([Registry::next_filter_id] after [on_subscribe]) *)
 Fixpoint l_nfilt (l : layer) : N :=
@@ -542,7 +547,7 @@ Fixpoint c_reg (has : bool) (c : coll) (m : meta) (p : pend) : interest * pend :
     if has then (match p with Some i => i | None => always end, None) (* take_interest().unwrap_or(always) *)
     else (always, p)
   | With l c' =>
-    let '(o, p1) := l_reg (is_registry c') l m p in
+    let '(o, p1) := l_reg l m p in
     pick_interest (with_flags l c') o (c_reg has c' m) p1
   end.
 
@@ -611,23 +616,22 @@ Definition deliver (c : coll) (m : meta) (cx : ctx) : list N :=
   if c_en c m cx then c_recv c m cx else [].
 
 (** *** Which EnvFilter instances see [register_callsite(m)] (short-circuits of Filtered / pick_interest) *)
-Fixpoint l_asked (r : bool) (l : layer) (m : meta) : list N :=
+Fixpoint l_asked (l : layer) (m : meta) : list N :=
   match l with
   | Glob f => f_asked f m
-  | Filtered l' f => f_asked f m ++ (if is_never (f_int f m) then [] else l_asked r l' m)
-  | Pair a b => l_asked r a m ++ (if psf a || negb (is_never (l_int r a m)) then l_asked r b m else [])
-  | LSome l => l_asked r l m
-  | LVec ls => flat_map (fun e => l_asked r e m) ls
-  | LBox l => l_asked r l m
-  | LReload l => l_asked r l m
+  | Filtered l' f => f_asked f m ++ (if is_never (f_int f m) then [] else l_asked l' m)
+  | Pair a b => l_asked a m ++ (if psf a || negb (is_never (l_int a m)) then l_asked b m else [])
+  | LSome l => l_asked l m
+  | LVec ls => flat_map (fun e => l_asked e m) ls
+  | LBox l => l_asked l m
+  | LReload l => l_asked l m
   | _ => []
   end.
 Fixpoint c_asked (c : coll) (m : meta) : list N :=
   match c with
   | Registry => []
   | With l c' =>
-    l_asked (is_registry c') l m ++
-    (if psf l || negb (is_never (l_int (is_registry c') l m)) then c_asked c' m else [])
+    l_asked l m ++ (if psf l || negb (is_never (l_int l m)) then c_asked c' m else [])
   end.
 
 Fixpoint l_envs (l : layer) : list (N * list ddir) :=
@@ -682,90 +686,72 @@ Fixpoint c_filters (c : coll) : list filt :=
   match c with Registry => [] | With l c' => l_filters l ++ c_filters c' end.
 Definition c_f12 (c : coll) (m : meta) : bool := existsb (fun f => f_f12 f m) (c_filters c).
 
-(** F14: an empty Vec somewhere *)
-Fixpoint l_f14 (l : layer) : bool :=
-  match l with
-  | Filtered l' _ => l_f14 l'
-  | Pair a b => l_f14 a || l_f14 b
-  | LSome l => l_f14 l
-  | LVec ls => (match ls with [] => true | _ => false end) || existsb l_f14 ls
-  | LBox l => l_f14 l
-  | LReload l => l_f14 l
-  | _ => false
-  end.
-Fixpoint c_f14 (c : coll) : bool := match c with Registry => false | With l c' => l_f14 l || c_f14 c' end.
-
-(** what a Vec would answer if it combined interests the way its [enabled] combines decisions *)
+(** the answer a Vec gives, as a function of its elements' answers *)
 Definition conj_interest (is : list interest) : interest :=
   if existsb is_never is then never else if forallb is_always is then always else sometimes.
 
-(** F8: a Vec whose "highest interest" answer differs from the conjunction of its elements' answers *)
-Fixpoint l_f8 (r : bool) (l : layer) (m : meta) : bool :=
+(** F82: a Filtered whose filter does not say [never] wraps a layer that does not say [always]
+    ([Filtered::register_callsite] ignores the wrapped layer's own Interest, [Filtered::enabled] does ask it) *)
+Fixpoint l_f82 (l : layer) (m : meta) : bool :=
   match l with
-  | Filtered l' _ => l_f8 r l' m
-  | Pair a b => l_f8 r a m || l_f8 r b m
-  | LSome l => l_f8 r l m
-  | LVec ls =>
-    negb (match l_int r (LVec ls) m, conj_interest (map (fun e => l_int r e m) ls) with
-          | never, never | sometimes, sometimes | always, always => true
-          | _, _ => false
-          end)
-    || existsb (fun e => l_f8 r e m) ls
-  | LBox l => l_f8 r l m
-  | LReload l => l_f8 r l m
-  | _ => false
-  end.
-Fixpoint c_f8 (c : coll) (m : meta) : bool :=
-  match c with Registry => false | With l c' => l_f8 (is_registry c') l m || c_f8 c' m end.
-
-(** F82: a Filtered whose filter does not say [never] wraps a layer that does not say [always] (the wrapped
-    layer's own Interest is ignored) *)
-Fixpoint l_f82 (r : bool) (l : layer) (m : meta) : bool :=
-  match l with
-  | Filtered l' f => (negb (is_never (f_int f m)) && negb (is_always (l_int r l' m))) || l_f82 r l' m
-  | Pair a b => l_f82 r a m || l_f82 r b m
-  | LSome l => l_f82 r l m
-  | LVec ls => existsb (fun e => l_f82 r e m) ls
-  | LBox l => l_f82 r l m
-  | LReload l => l_f82 r l m
+  | Filtered l' f => (negb (is_never (f_int f m)) && negb (is_always (l_int l' m))) || l_f82 l' m
+  | Pair a b => l_f82 a m || l_f82 b m
+  | LSome l => l_f82 l m
+  | LVec ls => existsb (fun e => l_f82 e m) ls
+  | LBox l => l_f82 l m
+  | LReload l => l_f82 l m
   | _ => false
   end.
 Fixpoint c_f82 (c : coll) (m : meta) : bool :=
-  match c with Registry => false | With l c' => l_f82 (is_registry c') l m || c_f82 c' m end.
+  match c with Registry => false | With l c' => l_f82 l m || c_f82 c' m end.
 
-(** F81: the hint of the layer sitting directly on the registry changes when the [and_then] pairs inside it
-    compute [inner_is_registry] from their inner value instead of from the collector type *)
-Definition c_f81 (c : coll) : bool :=
-  (fix go (c : coll) : bool :=
-     match c with
-     | Registry => false
-     | With l Registry => negb (hint_eqb (l_hint true l) (l_hint false l))
-     | With _ c' => go c'
-     end) c.
-
-(** F83: a tree that answers the NoneLayerMarker downcast although it is not made of [None] layers only *)
-Fixpoint pure_none (l : layer) : bool :=
+(** F83.  [pick_level_hint] orders hints as [None < Some _], so when one side of a [Layered] has no hint and the
+    other side has [Some x], the merged hint can be [Some x]: that is right when the hinted side contains a
+    GLOBAL filter bounded by [x] (its [enabled] then rejects everything above [x] for the whole stack).  The code
+    tries to make sure of that with the per-subscriber-filter flags and the none-layer marker.  [gbound] is the
+    tightest level above which a tree's [enabled] is guaranteed to say no; [merge_bad] says that a merge
+    published [Some x] taken from one side only although that side has no global filter bounded by [x]. *)
+Definition opt_lf_min (a b : hint) : hint :=
+  match a, b with
+  | None, x => x
+  | x, None => x
+  | Some x, Some y => Some (lf_min x y)
+  end.
+Fixpoint gbound (l : layer) : hint :=
   match l with
-  | LNone => true
-  | LSome l => pure_none l
-  | LBox l => pure_none l
-  | LReload l => pure_none l
-  | LVec ls => forallb pure_none ls && negb (match ls with [] => true | _ => false end)
-  | Pair a b => pure_none a && pure_none b
-  | _ => false
+  | Glob f => f_hint f
+  | Pair a b => opt_lf_min (gbound a) (gbound b)
+  | LSome l => gbound l
+  | LVec ls => fold_right (fun e acc => opt_lf_min (gbound e) acc) None ls
+  | LBox l => gbound l
+  | LReload l => gbound l
+  | _ => None
+  end.
+Fixpoint c_gbound (c : coll) : hint :=
+  match c with Registry => None | With l c' => opt_lf_min (gbound l) (c_gbound c') end.
+Definition gok (g : hint) (x : levelfilter) : bool :=
+  match g with Some y => frank y <=? frank x | None => false end.
+Definition merge_bad (o i r : hint) (go gi : hint) : bool :=
+  match r with
+  | None => false
+  | Some x => (hint_is_none o && negb (gok gi x)) || (hint_is_none i && negb (gok go x))
   end.
 Fixpoint l_f83 (l : layer) : bool :=
-  (is_none l && negb (pure_none l)) ||
   match l with
-  | Filtered l' _ => l_f83 l'
-  | Pair a b => l_f83 a || l_f83 b
+  | Pair a b => merge_bad (l_hint a) (l_hint b) (l_hint (Pair a b)) (gbound a) (gbound b) || l_f83 a || l_f83 b
   | LSome l => l_f83 l
   | LVec ls => existsb l_f83 ls
   | LBox l => l_f83 l
   | LReload l => l_f83 l
   | _ => false
   end.
-Fixpoint c_f83 (c : coll) : bool := match c with Registry => false | With l c' => l_f83 l || c_f83 c' end.
+Fixpoint c_f83 (c : coll) : bool :=
+  match c with
+  | Registry => false
+  | With l c' =>
+    (negb (is_registry c') && merge_bad (l_hint l) (c_hint c') (c_hint (With l c')) (gbound l) (c_gbound c'))
+    || l_f83 l || c_f83 c'
+  end.
 
 (** the documented restriction of [reload]: a [Filtered] inside a [reload::Subscriber] *)
 Fixpoint l_has_filtered (l : layer) : bool :=
@@ -836,8 +822,8 @@ Definition eval_stack (c : coll) (spans : list (N * list N)) :=
    map (fun m => enc_i (c_interest c m)) pool,
    map (fun cx => (map (fun m => enc_b (c_en c m cx)) pool, map (fun m => c_recv c m cx) pool)) ctxs,
    c_all c,
-   (map (fun m => enc_b (c_f8 c m)) pool, map (fun m => enc_b (c_f12 c m)) pool,
+   (map (fun m => enc_b (c_f12 c m)) pool,
     map (fun m => enc_b (c_f82 c m)) pool,
-    [enc_b (c_f14 c); enc_b (c_f81 c); enc_b (c_f83 c); enc_b (c_reloaded_filtered c);
+    [enc_b (c_f83 c); enc_b (c_reloaded_filtered c);
      enc_b (forallb (fun m => match c_pend_after c m with None => true | Some _ => false end) pool);
      c_nfilt c])).
